@@ -164,6 +164,8 @@ let esamples_of s =
           e_data = List.map evalue_of (split ',' vals); e_meta = List.map cz_of_string (split ',' meta) }
       | _ -> failwith "esample") (split ';' s)
 
+let frames_str fs = if fs = [] then "-" else String.concat ";" (List.map (fun (fid, p) -> string_of_cz fid ^ ":" ^ hex_of_bytes p) fs)
+
 (* ---- commands ------------------------------------------------------- *)
 let run (w : string list) : string =
   match w with
@@ -250,6 +252,11 @@ let run (w : string list) : string =
     let r = M.dev_new (cz_of_string "0") (cz_of_string flags) (cz_of_string "0") in
     String.concat " " (List.map (fun k -> match M.get r (cstring_of k) with Some v -> pyval v | None -> "missing")
                          [ "flags"; "div_supported"; "ack_supported" ])
+  | [ "recv_all"; chunks ] ->
+    (match M.recv_all (List.map bytes_of_hex (String.split_on_char ',' chunks)) with
+     | None -> "raise-or-fuel"
+     | Some (fs, rest) -> frames_str fs ^ " | " ^ hex_of_bytes rest)
+  | [ "scan"; d ] -> let (fs, rest) = M.scan (bytes_of_hex d) in frames_str fs ^ " | " ^ hex_of_bytes rest
   | _ -> "driver-error unknown-command"
 
 let () =
